@@ -5,7 +5,7 @@
  * case) and as variant base for valgrind (uninitialised-value-dependent branches).
  *
  *   hz <state> <hex1> [<hex2> ...]
- *     state: fresh | obs | blk2 | blk1        hostile datagrams go to a server endpoint from the
+ *     state: fresh | obs | blk2 | blk1 | osc  hostile datagrams go to a server endpoint from the
  *                                             peer that owns the ongoing observation / transfer
  *            client                           hostile datagrams go to a client session that has
  *                                             one Confirmable request outstanding
@@ -82,10 +82,27 @@ static void h_nack(coap_session_t *s, const coap_pdu_t *sent, const coap_nack_re
   (void)s; (void)sent; (void)reason; (void)mid;
 }
 
-static coap_context_t *mk_server(coap_endpoint_t **ep) {
+static coap_context_t *mk_server(coap_endpoint_t **ep, int with_oscore) {
   coap_context_t *ctx = coap_new_context(NULL);
   coap_resource_t *r;
   if (!ctx) return NULL;
+  if (with_oscore) {
+    /* an OSCORE security context (RFC 8613 C.1 test keys): OSCORE options of hostile datagrams
+     * are decoded, contexts looked up, AAD/nonce built and decryption attempted */
+    static const char conf_txt[] =
+      "master_secret,hex,\"0102030405060708090a0b0c0d0e0f10\"\n"
+      "master_salt,hex,\"9e7ca92223786340\"\n"
+      "sender_id,hex,\"01\"\nrecipient_id,hex,\"\"\nrecipient_id,hex,\"02\"\n"
+      "replay_window,integer,32\n";
+    coap_str_const_t mem;
+    mem.s = (const uint8_t *)conf_txt;
+    mem.length = sizeof(conf_txt) - 1;
+    coap_oscore_conf_t *conf = coap_new_oscore_conf(mem, NULL, NULL, 0);
+    if (!conf || !coap_context_oscore_server(ctx, conf)) {
+      coap_free_context(ctx);
+      return NULL;
+    }
+  }
   coap_context_set_block_mode(ctx, COAP_BLOCK_USE_LIBCOAP | COAP_BLOCK_SINGLE_BODY);
   *ep = vn_new_server_ep(ctx);
   r = coap_resource_init(coap_make_str_const("canary"), 0);
@@ -146,7 +163,7 @@ static int canary_from(coap_context_t *srv, coap_endpoint_t *ep, const coap_addr
 
 static void server_case(const char *state) {
   coap_endpoint_t *ep = NULL;
-  coap_context_t *srv = mk_server(&ep);
+  coap_context_t *srv = mk_server(&ep, !strcmp(state, "osc"));
   coap_address_t peer, peer2;
   const char *why = "";
   if (!srv || !ep) { puts("SETUPFAIL"); return; }
